@@ -472,6 +472,73 @@ func voterStrings(ps ...*pkg) []string {
 	return sortedCopy(out)
 }
 
+// dupCheck: how the vote-string parser detects a pair that is named twice.  "DupSeenSet": inside its loop it looks the
+// pair up in a map / set (comma-ok index or .Has) AND records it there (index assignment or .Add) — a set of all pairs seen so far;
+// "DupPrevOnly": it only compares the pair with the one of the tuple at index i-1; "DupNone": neither; "DupOther": a lookup
+// without recording.
+func dupCheck(p *pkg) string {
+	fd := p.fn("NewExchangeRateTuplesFromString")
+	if fd == nil {
+		for _, ds := range p.byNm {
+			for _, d := range ds {
+				if d.Name.Name != "NewExchangeRateTupleFromString" && containsCall(d.Body, "NewExchangeRateTupleFromString") {
+					fd = d
+				}
+			}
+		}
+	}
+	if fd == nil {
+		return "DupOther"
+	}
+	isPair := func(e ast.Expr) bool { return strings.HasSuffix(Nospace(e), ".Pair") || strings.HasSuffix(strings.ToLower(Nospace(e)), "pair") }
+	looked, recorded := map[string]bool{}, map[string]bool{}
+	prev := false
+	p.inspectClosure(fd, func(_ *ast.FuncDecl, n ast.Node) bool {
+		switch x := n.(type) {
+		case *ast.AssignStmt:
+			if len(x.Lhs) == 2 && len(x.Rhs) == 1 { // _, ok := m[pair]
+				if ix, ok := x.Rhs[0].(*ast.IndexExpr); ok && isPair(ix.Index) {
+					looked[Nospace(ix.X)] = true
+				}
+			}
+			if len(x.Lhs) == 1 && (x.Tok == token.ASSIGN) { // m[pair] = …
+				if ix, ok := x.Lhs[0].(*ast.IndexExpr); ok && isPair(ix.Index) {
+					recorded[Nospace(ix.X)] = true
+				}
+			}
+		case *ast.CallExpr:
+			if recv, name, args, ok := callSel(x); ok && len(args) == 1 && isPair(args[0]) {
+				switch name {
+				case "Has", "Contains":
+					looked[Nospace(recv)] = true
+				case "Add", "Insert":
+					recorded[Nospace(recv)] = true
+				}
+			}
+		case *ast.BinaryExpr:
+			if x.Op == token.EQL || x.Op == token.NEQ {
+				l, r := Nospace(x.X), Nospace(x.Y)
+				if strings.HasSuffix(l, ".Pair") && strings.HasSuffix(r, ".Pair") && (strings.Contains(l, "-1]") || strings.Contains(r, "-1]")) {
+					prev = true
+				}
+			}
+		}
+		return true
+	})
+	for m := range looked {
+		if recorded[m] {
+			return "DupSeenSet"
+		}
+	}
+	switch {
+	case len(looked) > 0:
+		return "DupOther"
+	case prev:
+		return "DupPrevOnly"
+	}
+	return "DupNone"
+}
+
 func main() {
 	repo := Repo()
 	Header(repo)
@@ -605,6 +672,7 @@ func main() {
 	fmt.Printf("  cc_validate_min_voters := %s;\n", CoqBool(has("(<= p.MinVoters 0)")))
 	fmt.Printf("  cc_validate_band := %s;\n", CoqBool(has("(|| call(p.RewardBand.GT;call(math.LegacyOneDec;)) call(p.RewardBand.IsNegative;))")))
 	fmt.Printf("  cc_edit_validates := %s;\n", CoqBool(editValidates))
+	fmt.Printf("  cc_dup_check := %s;\n", dupCheck(tp))
 	fmt.Printf("  cc_voter_strings := %s |}.\n", coqStrs(voterStrings(ap, kp, tp)))
 	fmt.Println("(* diagnostics (not used by the obligations) *)")
 	fmt.Printf("Definition expiry_normal_form : string := %s.\n", CoqString(expiryText))
